@@ -262,6 +262,24 @@ def run(chk: common.Check) -> None:
     if real:
         chk.cov.sample({'real_child_script': specs[0]['statement'], 'reported': (real[0]['rec'] or {}).get('stdout')})
 
+    # a second run of the same object: what it prints is reported for that run's traces (text per (run number, trace number))
+    two = [{'statement': 'import threading, sys\ndef w():\n    sys.stdout.write("th-")\n    print("line")\nt = threading.Thread(target=w)\nt.start()\n'
+                         't.join()\nsys.stdout.write("ma")\nprint("in")\n', 'trace_threads': True, 'policy': {'kind': 'all', 'command': 'next'},
+            'timeout': 40, 'second_run': True, 'second_timeout': 30}]
+    for r in common.real_runs(two, jobs=1, hard_timeout=120):
+        rec = r['rec']
+        chk.cov.case(('real-two-runs',))
+        chk.cov.count('kinds', 'real-child-two-runs')
+        if rec is None or rec.get('second_finished') is not True:
+            oracle_fail.append(({'script': two[0]['statement'], 'runs': 2}, [f'two runs of one object did not finish: {(rec or {}).get("errors")}'], None))
+        else:
+            per: dict = {}
+            for tn, text, rn in rec['stdout']:
+                per[(rn, tn)] = per.get((rn, tn), '') + text
+            want = {(1, 1): 'main\n', (1, 2): 'th-line\n', (2, 1): 'main\n', (2, 2): 'th-line\n'}
+            if per != want:
+                oracle_fail.append(({'script': two[0]['statement'], 'runs': 2}, [f'text reported per (run, trace) over two runs of one object: {per}, expected {want}'], None))
+
     # several threads inside the stdout hook at the same time (lines assembled from partial writes), 1 µs thread-switch interval,
     # through the real trace machinery in-process: what each thread wrote vs what was reported for its trace
     from . import _trace
